@@ -226,6 +226,34 @@ func EX(t *rapid.T) string {
 	return strconv.Itoa(rapid.IntRange(100000, 900000).Draw(t, "ex"))
 }
 
+// EscMeta escapes the glob metacharacters of a name, giving a pattern that
+// matches exactly that name (names may contain '*', '?', '[' and '\\').
+func EscMeta(name string) string {
+	var b []byte
+	for i := 0; i < len(name); i++ {
+		switch name[i] {
+		case '*', '?', '[', ']', '\\':
+			b = append(b, '\\')
+		}
+		b = append(b, name[i])
+	}
+	return string(b)
+}
+
+// EscFirst puts a (redundant) escape in front of the first byte of a name
+// when that byte is ASCII: the pattern still matches exactly the name.
+func EscFirst(name string) string {
+	if name == "" || name[0] >= 0x80 {
+		return EscMeta(name)
+	}
+	return "\\" + EscMeta(name)[func() int {
+		if name[0] == '*' || name[0] == '?' || name[0] == '[' || name[0] == ']' || name[0] == '\\' {
+			return 1
+		}
+		return 0
+	}():]
+}
+
 var jsetPaths = []string{"a", "b", "a.b", "n.m", "name", "properties.tag", "properties.speed", "extra"}
 
 // KeyspaceCmd draws one keyspace command over the given names. Weights favour
@@ -271,7 +299,7 @@ func KeyspaceCmd(t *rapid.T, ns Names) []string {
 		}
 		return []string{"DEL", k(), id()}
 	case 14:
-		pats := []string{"*", id(), id() + "*", "[a-b]*", "?", "*" + id()}
+		pats := []string{"*", id(), id() + "*", "[a-b]*", "?", "*" + id(), EscMeta(id()), EscMeta(id()) + "*", EscFirst(id()), "*" + EscMeta(id())}
 		return []string{"PDEL", k(), pick(t, "pat", pats)}
 	case 15:
 		return []string{"DROP", k()}
@@ -338,7 +366,7 @@ func KeyspaceCmd(t *rapid.T, ns Names) []string {
 	case 37:
 		return []string{"TYPE", k()}
 	case 38:
-		pats := []string{"*", k(), "k*", "?" + "*"}
+		pats := []string{"*", k(), "k*", "?" + "*", EscMeta(k()), EscFirst(k()), EscMeta(k()) + "*"}
 		return []string{"KEYS", pick(t, "kpat", pats)}
 	default:
 		args := []string{"SCAN", k()}
